@@ -1,6 +1,8 @@
 // C05: beacon DKG member fate (decideMemberFate / resolveGroupOperators, pkg/beacon/dkg/dkg.go).
 //
-//	fate <me> <N> <honest> <step> <start> <mykey> <evkey|-> <misbehaved> <order> <selected>
+//	fate <me> <N> <honest> <step> <start> <mykey> <evkey|-> <misbehaved> <order> <selected> [<localIA> <localDQ>]
+//	    localIA / localDQ: members the node itself marked inactive / disqualified on
+//	    gjkrResult.Group during GJKR (its LOCAL view; the fate must not depend on it).
 //	    the failure path of ExecuteDKG: decideMemberFate (waitForDkgResultEvent driven with a
 //	    scripted block counter and event channel), then resolveGroupOperators on its result.
 //	    mykey: k<i> | nil ; evkey: k<i> | z<i> (last byte flipped) | t<i> (truncated) | e (empty) |
@@ -129,13 +131,24 @@ func resolve(sel []chain.Address, ids []group.MemberIndex, cfg *beaconchain.Conf
 func exec(op string) (string, string) {
 	f := strings.Fields(op)
 	switch {
-	case len(f) == 11 && f[0] == "fate":
+	case (len(f) == 11 || len(f) == 13) && f[0] == "fate":
 		me, n, honest := hx.Atoi(f[1]), hx.Atoi(f[2]), hx.Atoi(f[3])
 		step, start := hx.AtoU64(f[4]), hx.AtoU64(f[5])
 		if n < 1 || n > 255 || honest > n || me < 0 || me > 255 {
 			return "bad-op", "bad"
 		}
 		res := &gjkr.Result{Group: group.NewGroup(n-honest, n)}
+		localView := false
+		if len(f) == 13 {
+			for _, m := range hx.ParseInts(f[11]) {
+				res.Group.MarkMemberAsInactive(group.MemberIndex(m))
+				localView = true
+			}
+			for _, m := range hx.ParseInts(f[12]) {
+				res.Group.MarkMemberAsDisqualified(group.MemberIndex(m))
+				localView = true
+			}
+		}
 		if f[6] != "nil" {
 			res.GroupPublicKey = new(bn256.G2)
 			if _, err := res.GroupPublicKey.Unmarshal(keyBytes(f[6])); err != nil {
@@ -170,6 +183,9 @@ func exec(op string) (string, string) {
 			misb = append(misb, uint8(m))
 		}
 		tag := "fate"
+		if localView {
+			tag += "+localview"
+		}
 		deliverEvent := func() bool {
 			if f[7] == "-" {
 				return false
@@ -210,6 +226,21 @@ func exec(op string) (string, string) {
 			tag += "+stay"
 			if len(misb) > 0 {
 				tag += "+misb"
+			}
+			if localView {
+				// somebody the node saw misbehaving locally is not listed by the chain
+				for _, m := range append(hx.ParseInts(f[11]), hx.ParseInts(f[12])...) {
+					listed := false
+					for _, x := range misb {
+						if int(x) == m {
+							listed = true
+						}
+					}
+					if !listed && m >= 1 && m <= n {
+						tag += "+localonly"
+						break
+					}
+				}
 			}
 		} else {
 			tag += "+" + strings.TrimPrefix(o, "err:")
@@ -330,8 +361,45 @@ func gen(r *hx.Rng, n int, tier string) []string {
 		if r.Chance(1, 15) {
 			sn = r.Range(0, N+1)
 		}
-		ops = append(ops, fmt.Sprintf("fate %d %d %d %d %d %s %s %s %s %s", me, N, honest, r.Range(1, 6), r.Intn(5000),
-			mykey, ev, hx.JoinInts(misb), order, selected(r, sn)))
+		// the member's local view of the group after GJKR: arbitrary IA / DQ sets, equal to,
+		// overlapping with, or disjoint from the chain's misbehaved list
+		var ia, dq []int
+		switch r.Intn(5) {
+		case 0: // fresh group
+		case 1: // same as the chain's list, split
+			for _, m := range misb {
+				if r.Bool() {
+					ia = append(ia, m)
+				} else {
+					dq = append(dq, m)
+				}
+			}
+		case 2: // so many that the local operating set is below the honest threshold
+			for j := 1; j <= N; j++ {
+				if j != me && r.Chance(3, 4) {
+					if r.Bool() {
+						ia = append(ia, j)
+					} else {
+						dq = append(dq, j)
+					}
+				}
+			}
+		default:
+			for j := r.Intn(4); j > 0; j-- {
+				ia = append(ia, r.Range(1, N))
+			}
+			for j := r.Intn(3); j > 0; j-- {
+				dq = append(dq, r.Range(1, N))
+			}
+			if r.Chance(1, 8) {
+				ia = append(ia, me) // the node cannot mark itself in practice; harmless
+			}
+			if r.Chance(1, 10) {
+				dq = append(dq, hx.Pick(r, []int{0, N + 1}))
+			}
+		}
+		ops = append(ops, fmt.Sprintf("fate %d %d %d %d %d %s %s %s %s %s %s %s", me, N, honest, r.Range(1, 6), r.Intn(5000),
+			mykey, ev, hx.JoinInts(misb), order, selected(r, sn), hx.JoinInts(ia), hx.JoinInts(dq)))
 	}
 	return ops
 }
